@@ -22,9 +22,9 @@ import (
 	"google.golang.org/grpc/credentials/insecure"
 	"google.golang.org/grpc/test/bufconn"
 
+	resourcetypes "github.com/projecteru2/core/resource/types"
 	corerpc "github.com/projecteru2/core/rpc"
 	pb "github.com/projecteru2/core/rpc/gen"
-	resourcetypes "github.com/projecteru2/core/resource/types"
 	coretypes "github.com/projecteru2/core/types"
 
 	"verif/harness/vcore"
@@ -60,11 +60,15 @@ func init() {
 	}
 }
 
-var c34Kinds = []string{"create", "create2f", "remove", "dissociate", "realloc", "control", "send", "status", "rpc"}
+var c34Kinds = []string{"create", "create2f", "remove", "dissociate", "realloc", "control", "send", "status", "rpc", "listnodes"}
+
+// the Redis store: the kinds whose store side differs most from the etcd store
+var c34RedisKinds = []string{"listnodes", "create", "remove", "status"}
 
 type c34Spec struct {
 	A        string `json:"a"`
 	B        string `json:"b"`
+	Redis    bool   `json:"redis_store,omitempty"`
 	Reps     int    `json:"reps"`
 	GMP      []int  `json:"gomaxprocs"`
 	Dir      string `json:"dir,omitempty"`
@@ -86,6 +90,11 @@ func c34Scenarios() []c34Spec {
 			out = append(out, c34Spec{A: a, B: b})
 		}
 	}
+	for i, a := range c34RedisKinds {
+		for _, b := range c34RedisKinds[i:] {
+			out = append(out, c34Spec{A: a, B: b, Redis: true})
+		}
+	}
 	return out
 }
 
@@ -99,7 +108,7 @@ func checkC34(t *testing.T, c *vcore.Ctx) {
 		reps = 200
 	}
 	gmps := []int{2, 16}
-	c.SetRule("every unordered pair (with repetition) of operation kinds from {create EACH x2 on 2 nodes with one instance failing by an injected engine fault, the same with both instances of one node failing, remove of one workload on each of 3 nodes (two nodes share a pod, the third is alone in its pod), dissociate of the same shape, realloc, control stop+start, send, set+get workload status, two concurrent unary RPCs (GetPod) on a real grpc server over bufconn serving rpc.Vibranium} " +
+	c.SetRule("every unordered pair (with repetition) of operation kinds from {create EACH x2 on 2 nodes with one instance failing by an injected engine fault, the same with both instances of one node failing, remove of one workload on each of 3 nodes (two nodes share a pod, the third is alone in its pod), dissociate of the same shape, realloc, control stop+start, send, set+get workload status, two concurrent unary RPCs (GetPod) on a real grpc server over bufconn serving rpc.Vibranium, listing the three real nodes of a pod (each node's heartbeat status is read from its own pool goroutine)}; the pairs over {list nodes, create, remove, status} also on the Redis store; " +
 		"run as two goroutines released together on one real core instance (real Calcium/Mercury/cobalt/cpumem/WAL over memetcd and the fakev engines), free-running in a -race build, R repetitions x GOMAXPROCS in {2,16}, one child process per scenario with GORACE=log_path; " +
 		"a race report counts when both access stacks can be attributed and at least one is attributed to github.com/projecteru2/core (not mocks), none to the harness; non-trivial = distinct (scenario, GOMAXPROCS) in which both operations ran to completion with their expected results")
 	c.Assume("the race detector observes the executions the runtime happened to produce: this check is exhaustive over the scenario alphabet only, schedules are sampled")
@@ -122,7 +131,7 @@ func checkC34(t *testing.T, c *vcore.Ctx) {
 			c.HarnessError("replay: %v", err)
 			return
 		}
-		scen = []c34Spec{{A: sp.A, B: sp.B}}
+		scen = []c34Spec{{A: sp.A, B: sp.B, Redis: sp.Redis}}
 	}
 	for i, sp := range scen {
 		if c.Replay == nil && !c.Mine(int64(i)) {
@@ -175,6 +184,9 @@ func c34RunScenario(c *vcore.Ctx, dir string, idx int, sp c34Spec) {
 		c.CapHit(fmt.Sprintf("scenario %s|%s was still running at the end of the budget", sp.A, sp.B))
 	}
 	name := sp.A + "|" + sp.B
+	if sp.Redis {
+		name = "redis:" + name
+	}
 	var res c34ChildResult
 	rb, rerr := os.ReadFile(sp.Out)
 	if rerr == nil {
@@ -199,7 +211,7 @@ func c34RunScenario(c *vcore.Ctx, dir string, idx int, sp c34Spec) {
 			sig := "C34/race/" + r.Pair
 			if !sigs[sig] {
 				sigs[sig] = true
-				c.Violate(sig, fmt.Sprintf("data race (%s vs %s) reported in scenario %s; accesses: %s  <->  %s", r.Kind[0], r.Kind[1], name, r.Where[0], r.Where[1]), c34Spec{A: sp.A, B: sp.B})
+				c.Violate(sig, fmt.Sprintf("data race (%s vs %s) reported in scenario %s; accesses: %s  <->  %s", r.Kind[0], r.Kind[1], name, r.Where[0], r.Where[1]), c34Spec{A: sp.A, B: sp.B, Redis: sp.Redis})
 			}
 		case "harness":
 			c.Outcome("filtered:harness-race")
@@ -218,7 +230,7 @@ func c34RunScenario(c *vcore.Ctx, dir string, idx int, sp c34Spec) {
 			tail = tail[len(tail)-1500:]
 		}
 		if strings.Contains(string(out), "fatal error: concurrent map") {
-			c.Violate("C34/fatal/concurrent-map-access", fmt.Sprintf("scenario %s died with a concurrent map access: %s", name, tail), c34Spec{A: sp.A, B: sp.B})
+			c.Violate("C34/fatal/concurrent-map-access", fmt.Sprintf("scenario %s died with a concurrent map access: %s", name, tail), c34Spec{A: sp.A, B: sp.B, Redis: sp.Redis})
 			return
 		}
 		c.HarnessError("scenario %s: child produced no result (%v / %v): %s", name, werr, rerr, tail)
@@ -267,6 +279,8 @@ func c34Want(kind string) string {
 		return "ok2/fail2"
 	case "rpc":
 		return "ok2/fail0"
+	case "listnodes":
+		return "ok3/fail0"
 	case "remove", "dissociate", "realloc", "send":
 		return "ok3/fail0"
 	case "control", "status":
@@ -492,9 +506,10 @@ func c34Attribute(fr []c34Frame) (class, loc, where string) {
 // ---------------------------------------------------------------------------------------
 
 type c34World struct {
-	b    *world.Backend
-	snap *world.Snap
-	ids  map[string][]string // slot -> workload ids (one on each of n1, n2 (pod p) and n3 (pod q))
+	b     *world.Backend
+	snap  *world.Snap
+	ids   map[string][]string // slot -> workload ids (one on each of n1, n2 (pod p) and n3 (pod q))
+	redis bool
 }
 
 func c34Child(specPath string) {
@@ -516,7 +531,7 @@ func c34Child(specPath string) {
 		fmt.Fprintln(os.Stderr, "c34 child: bad spec:", err)
 		os.Exit(4)
 	}
-	w, err := c34Setup(sp.Dir)
+	w, err := c34Setup(sp.Dir, sp.Redis)
 	if err != nil {
 		res.Problem = "setup: " + err.Error()
 		write()
@@ -545,9 +560,9 @@ func c34Child(specPath string) {
 	write()
 }
 
-func c34Setup(dir string) (*c34World, error) {
-	b := world.NewBackend(dir, false)
-	inst, err := b.NewInstance(world.InstanceOpts{})
+func c34Setup(dir string, redis bool) (*c34World, error) {
+	b := world.NewBackend(dir, redis)
+	inst, err := b.NewInstance(world.InstanceOpts{Redis: redis})
 	if err != nil {
 		return nil, err
 	}
@@ -560,6 +575,16 @@ func c34Setup(dir string) (*c34World, error) {
 	if _, err := inst.Cal.AddPod(ctx, "q", ""); err != nil {
 		return nil, err
 	}
+	// pod r holds two real (non-test) nodes without workloads: listing them asks the store for each node's
+	// heartbeat status from its own pool goroutine
+	if _, err := inst.Cal.AddPod(ctx, "r", ""); err != nil {
+		return nil, err
+	}
+	for _, n := range []world.NodeSpec{{Name: "n4", Pod: "r", CPU: 2, Memory: 500}, {Name: "n5", Pod: "r", CPU: 2, Memory: 500}, {Name: "n6", Pod: "r", CPU: 2, Memory: 500}} {
+		if _, err := inst.Cal.AddNode(ctx, n.Options()); err != nil {
+			return nil, err
+		}
+	}
 	// n1, n2 share pod p (operations on them serialise on the pod lock); n3 is alone in pod q, so
 	// the per-node goroutines of one remove/dissociate call really run in parallel
 	for _, n := range []world.NodeSpec{{Name: "n1", Pod: "p", CPU: 4, Memory: 2000, Test: true}, {Name: "n2", Pod: "p", CPU: 4, Memory: 2000, NUMA: true, Test: true}, {Name: "n3", Pod: "q", CPU: 4, Memory: 2000, Test: true}} {
@@ -567,7 +592,7 @@ func c34Setup(dir string) (*c34World, error) {
 			return nil, err
 		}
 	}
-	w := &c34World{b: b, ids: map[string][]string{}}
+	w := &c34World{b: b, ids: map[string][]string{}, redis: redis}
 	for _, slot := range []string{"A", "B"} {
 		byNode := map[string]string{}
 		for _, pod := range []string{"p", "q"} {
@@ -716,6 +741,14 @@ func c34Op(ctx context.Context, inst *world.Instance, w *c34World, kind, slot st
 			return "error:" + err.Error()
 		}
 		ok += len(got)
+	case "listnodes":
+		ch, err := inst.Cal.ListPodNodes(ctx, &coretypes.ListNodesOptions{Podname: "r", All: true})
+		if err != nil {
+			return "error:" + err.Error()
+		}
+		for range ch {
+			ok++
+		}
 	case "rpc":
 		// two concurrent unary calls through the real server
 		var wg sync.WaitGroup
@@ -747,7 +780,7 @@ func c34Op(ctx context.Context, inst *world.Instance, w *c34World, kind, slot st
 // two goroutines released together.
 func c34OneRep(w *c34World, a, b string) (ra, rb, problem string) {
 	w.b.Restore(w.snap)
-	inst, err := w.b.NewInstance(world.InstanceOpts{})
+	inst, err := w.b.NewInstance(world.InstanceOpts{Redis: w.redis})
 	if err != nil {
 		return "", "", "new instance: " + err.Error()
 	}
